@@ -180,6 +180,16 @@ func mdqueryPart(w *vc.Writer, r *vc.Rand) {
 				q.Add(k, rr.Pick(vals))
 			}
 		}
+		if rr.Chance(20) {
+			// two spellings of one key that differ only in letter case: their values are merged under the lower-case key (the same
+			// value for both, because the order in which Go walks the query map - hence the order of the merged values - is not fixed)
+			pair := [][2]string{{"x-a", "X-A"}, {"X-B", "x-b"}, {"a.b_c-d", "A.B_C-D"}, {"x-tag", "X-Tag"}}[rr.Intn(4)]
+			v := rr.Pick([]string{"v", "hello world", "~ok~", "a=b&c"})
+			q.Del(eff + "[" + pair[0] + "]")
+			q.Del(eff + "[" + pair[1] + "]")
+			q.Add(eff+"["+pair[0]+"]", v)
+			q.Add(eff+"["+pair[1]+"]", v)
+		}
 		u := &url.URL{Path: "/x", RawQuery: q.Encode()}
 		req := &http.Request{Method: "GET", URL: u, Header: http.Header{}}
 		orig := req.URL.Query()
